@@ -250,7 +250,10 @@ def run_check(mod, pid, a, t0):
     }
     if exhaustive is not None:
         cov["exhaustive_tables"] = exhaustive.get("tables", {})
-    fw.write_evidence(pid, tier, seed, cov, time.time() - t0, violations, list(getattr(mod, "ASSUMPTIONS", [])))
+    if a.no_lean or os.environ.get("VERIF_REPO"):
+        pass    # development run (no Lean stage / another tree than /repo): not evidence
+    else:
+        fw.write_evidence(pid, tier, seed, cov, time.time() - t0, violations, list(getattr(mod, "ASSUMPTIONS", [])))
     print(f"{pid} {tier} seed={seed}: theorems {lean['discharged']}/{lean['obligations']}, scenarios {acc['n']}, ops {acc['ops']}, spec evals {acc['specs']}, nontrivial-distinct {len(set(acc['hashes']))}, disagreements {len(acc['fail'])}, violations {violations}, {time.time()-t0:.1f}s")
     if acc["spec_errors"]:
         print("spec extraction errors:", acc["spec_errors"][:3], file=sys.stderr)
